@@ -57,6 +57,7 @@ type run struct {
 	streams  map[int]*streamMon // C02 monitor state per client
 	doneTask map[int]string     // op name -> final payload "code/tok" (C03 same-final, C01 no restart)
 	hist     *hx.Result
+	noModel  bool // monitor-only mode: used to search for a failing input after a mismatch
 }
 
 type failure struct {
@@ -144,6 +145,10 @@ func (r *run) window(primary string, an string) {
 	hints := r.hints(assigned, an)
 	r.monitor(impl, st, dump)
 	if r.fail != nil {
+		return
+	}
+	if r.noModel {
+		r.prev, r.last = assigned, dump
 		return
 	}
 	var model []string
@@ -304,6 +309,17 @@ func (r *run) apply(line string) {
 	a := args[2:]
 	switch args[1] {
 	case "regpq": // comps plat sizes bgmax bgprio
+		if r.noModel {
+			comps, plat := ints(a[0]), atoi(a[1])
+			sizes := ints(a[2])
+			usizes := make([]uint32, len(sizes))
+			for i, s := range sizes {
+				usizes[i] = uint32(s)
+			}
+			w.bq.RegisterPredeclaredPlatformQueue(mustInstance(compsToInstance(comps)), platformMsg(plat), nil, atoi(a[3]), int32(atoi(a[4])), usizes)
+			w.pqID(comps, plat)
+			return
+		}
 		comps, plat := ints(a[0]), atoi(a[1])
 		sizes := ints(a[2])
 		usizes := make([]uint32, len(sizes))
@@ -457,10 +473,8 @@ func (r *run) quiesce() {
 	sort.Strings(keys)
 	for _, k := range keys {
 		if cl := w.syncs[k]; !cl.done && r.fail == nil && !r.tie {
-			cl.cancel()
 			f := strings.Split(k, "/")
-			w.clk.advance(w.clk.now + 8)
-			r.window(fmt.Sprintf("wwake %d %s %s %s 2", w.clk.now, f[0], f[1], f[2]), "sel=0 bg=- retry=0")
+			r.apply(fmt.Sprintf("1 wcancel %s %s %s", w.pqSpec[atoi(f[0])], f[1], f[2]))
 		}
 	}
 	for id, cl := range w.terms {
